@@ -284,6 +284,14 @@ package main
 //@ prop C20
 //@ at call StorePointer assert[only-a-completely-read-file-is-published] ret1(ReadAll) == nil
 //@ ensures[read-error-keeps-old-contents] called(ReadAll) && ret1(ReadAll) != nil ==> !called(StorePointer)
+//@ prop C20 C08
+//@ ensures[a-completely-read-file-is-always-published] called(ReadAll) && ret1(ReadAll) == nil ==> called(StorePointer)
+//@ loop 0 invariant[the-new-map-holds-exactly-the-addresses-read-so-far] rangeindex >= -1 && rangeindex < len(records)
+//@     && (forall j int :: 0 <= j && j <= rangeindex ==> inmap(updated, strings.ToLower(strings.TrimSpace(records[j][0]))))
+//@     && (forall a string :: inmap(updated, a) ==> exists j int :: 0 <= j && j <= rangeindex && a == strings.ToLower(strings.TrimSpace(records[j][0])))
+//@ at call StorePointer assert[published-map-holds-exactly-the-files-addresses] true &&
+//@     (forall j int :: 0 <= j && j < len(records) ==> inmap(updated, strings.ToLower(strings.TrimSpace(records[j][0]))))
+//@     && (forall a string :: inmap(updated, a) ==> exists j int :: 0 <= j && j < len(records) && a == strings.ToLower(strings.TrimSpace(records[j][0])))
 
 // ---------------------------------------------------------------- C01: wiring of the session loaders and handlers
 //@ func buildSessionChain
@@ -327,6 +335,13 @@ package main
 //@     && arg(NewHTPasswdValidator, 0) == opts.HtpasswdFile
 //@ at call buildServeMux assert[basic-auth-only-with-an-htpasswd-file] (!called(NewHTPasswdValidator) ==> recv(buildServeMux).basicAuthValidator == nil)
 //@     && (called(NewHTPasswdValidator) ==> recv(buildServeMux).basicAuthValidator == ret0(NewHTPasswdValidator))
+// every configured trusted network is parsed and added to the set, in order; an unparsable one is a start-up error
+//@ loop 1 ghost nadded int init 0 step ite(called(AddIPNet), nadded + 1, nadded)
+//@ loop 1 invariant[every-configured-trusted-network-so-far-was-added] rangeindex >= -1 && nadded == rangeindex + 1
+//@     && rangeindex < len(opts.TrustedIPs)
+//@ at call AddIPNet assert[adds-the-parsed-configured-network-to-the-proxys-set] arg(AddIPNet, 0) == ret(NewNetSet)
+//@     && ret(ParseIPNet) != nil && arg(AddIPNet, 1) == deref(ret(ParseIPNet)) && arg(ParseIPNet, 0) == ipStr
+//@ at call buildRoutesAllowlist assert[all-configured-trusted-networks-were-added] nadded == len(opts.TrustedIPs)
 //@ ensures[errors-produce-no-proxy] ret1 != nil ==> ret0 == nil
 //@ ensures[result-is-the-assembled-proxy] ret1 == nil ==> ret0 == recv(buildServeMux)
 
@@ -339,3 +354,28 @@ package main
 //@     && arg(New, 0)[1] == ret0(NewResponseHeaderInjector)
 //@ ensures[no-error-means-both-injectors] ret1 == nil ==> called(New) && ret0 == ret(New) && ret1(NewRequestHeaderInjector) == nil
 //@     && ret1(NewResponseHeaderInjector) == nil
+
+// ---------------------------------------------------------------- C16 / C13: the chain in front of authentication
+//@ func buildPreAuthChain
+//@ prop C16 C01
+//@ at call NewScope assert[forwarded-header-trust-is-the-reverse-proxy-option] arg(NewScope, 0) == opts.ReverseProxy
+//@     && arg(NewScope, 1) == opts.Logging.RequestIDHeader
+//@ at call New assert[the-scope-comes-first] len(arg(New, 0)) == 1 && arg(New, 0)[0] == ret(NewScope)
+//@ prop C16 C13
+//@ at call NewReadynessCheck assert[readiness-asks-this-proxys-store] arg(NewReadynessCheck, 1) == sessionStore && arg(NewReadynessCheck, 0) == opts.ReadyPath
+//@ at call NewRedirectToHTTPS assert[https-redirect-only-when-forced] opts.ForceHTTPS
+
+// ---------------------------------------------------------------- C20 / C08: the e-mail list is loaded once and reloaded from the same file
+//@ stable UserMap.usersFile
+//@ prop C20 C08
+//@ scan[users-file-name-written-by-the-constructor-only] field-writers UserMap.usersFile main.NewUserMap
+//@ func NewUserMap
+//@ prop C20 C08
+//@ at call WatchFileForUpdates assert[watches-the-configured-file] arg(WatchFileForUpdates, 0) == usersFile && arg(WatchFileForUpdates, 1) == done
+//@ ensures[a-configured-file-is-watched-and-loaded] usersFile != "" ==> called(WatchFileForUpdates) && called(LoadAuthenticatedEmailsFile)
+//@     && recv(LoadAuthenticatedEmailsFile) == result
+//@ ensures[the-map-reads-that-file] result != nil && result.usersFile == usersFile
+
+//@ func NewUserMap$1
+//@ prop C20 C08
+//@ ensures[an-update-reloads-this-map] called(LoadAuthenticatedEmailsFile) && recv(LoadAuthenticatedEmailsFile) == um
